@@ -693,7 +693,7 @@ Definition vStatus (s : status) : value :=
   | Running st => L [vN 1; L (map vCall (m_log st))]            (* fuel exhausted: never for machine *)
   end.
 
-(* history steps: (0 plugin? cmd) disable, (1 plugin? cmd) enable, (2 strs) a flat command line, (3) restart *)
+(* history steps: (0 plugin? cmd) disable, (1 plugin? cmd) enable, (2 strs) a flat command line, (3) restart, (4 names) config *)
 Definition has_cmd_of (cbs : list plug) (p c : str) : bool :=
   match find (fun q => seq_eqb (p_name q) p) cbs with
   | Some q => seq_eqb c (canon c) && existsb (seq_eqb c) (p_meths q)
@@ -711,6 +711,12 @@ Fixpoint hist_run (E : env) (B : behs) (K : config) (st : ostate) (steps : list 
           vStatus (machine (final_of E' B) K (map AStr (gLS (nth_v 1 s)))) :: hist_run E B K st steps'
       | 3 =>
           let st' := restart st in
+          L [vB true; vDis (o_d st'); vLS (o_conf st')] :: hist_run E B K st' steps'
+      | 4 =>
+          (* `config supybot.commands.disabled <names>`: the registry value (a set of canonical strings) is replaced and
+             its callback builds a fresh DisabledCommands from it *)
+          let conf := fold_left (fun cf n => conf_add (canon n) cf) (gLS (nth_v 1 s)) [] in
+          let st' := OState (dis_of_conf conf) conf in
           L [vB true; vDis (o_d st'); vLS (o_conf st')] :: hist_run E B K st' steps'
       | tag =>
           let o := (match tag with 0 => ODisable | _ => OEnable end) (gO gS (nth_v 1 s)) (gS (nth_v 2 s)) in
